@@ -25,7 +25,7 @@ from symx.values import zreal
 
 BOUNDS = {
     "quick": "all dependency DAGs over 3 parameters x all 6 declaration orders x 3 expression vocabularies, nested and flat "
-    "labels, 2 symbolic updates + copy; all plain values symbolic",
+    "labels, 2 symbolic updates + copy; all plain values symbolic; plus 3 four-parameter graphs (chain, diamonds) x 4 declaration orders",
     "thorough": "additionally all DAGs over 4 parameters x all 24 declaration orders (seeded vocabulary), 3 updates",
 }
 OUTSIDE = "5-6 parameters; loading from yml/csv files (file I/O); expressions outside the vocabulary (+ - * / exp sqrt)"
@@ -61,6 +61,12 @@ def configs(tier, seed):
                 for voc in vocs:
                     out.append({"name": f"n{n}-dag{di}-order{oi}-voc{voc}", "n": n, "deps": deps, "order": list(order),
                                 "voc": voc, "nested": (di + oi + voc) % 2 == 1, "updates": 2 if tier == "quick" else 3})
+    if tier == "quick":
+        # four parameters: the chain and the diamond in dependants-first, dependencies-first and two mixed declaration orders
+        for di, deps in enumerate(([[], [0], [1], [2]], [[], [0], [0], [1, 2]], [[], [0], [0, 1], [1, 2]])):
+            for oi, order in enumerate(([3, 2, 1, 0], [0, 1, 2, 3], [2, 3, 0, 1], [3, 1, 2, 0])):
+                out.append({"name": f"n4-deep{di}-order{oi}", "n": 4, "deps": deps, "order": order, "voc": (di + oi) % 3,
+                            "nested": (di + oi) % 2 == 1, "updates": 2})
     # batch configurations to keep process overhead low
     batches = []
     size = 12 if tier == "quick" else 40
@@ -128,8 +134,7 @@ def run_config(batch, rec):
     with Patcher() as p:
         install_numeric_shims(p)
         rec.shims += p.record
-        for cfg in batch["items"]:
-            _run_one(cfg, rec)
+        rec.each(batch["items"], lambda cfg: _run_one(cfg, rec))
 
 
 def _run_one(cfg, rec):
@@ -174,7 +179,7 @@ def _run_one(cfg, rec):
                 record(f"update partial {k0}", params, cur)
         return rec_stages, ops
 
-    for ctx, (kind, out) in core.explore(fn2, rec.stats, max_paths=50):
+    for ctx, (kind, out) in core.explore(fn2, rec.stats, max_paths=50 if cfg["n"] < 4 else 400):
         rec.witness_path(ctx)
         wit = lambda mm, cfg=cfg: {"env": model_env(mm), "item": cfg}  # noqa: E731
         if kind == "exc":
